@@ -81,6 +81,7 @@ pub fn generate(prop: &str, tier: &str, g: &mut Gen) {
         "C04" => c04::generate(g, thorough),
         "C07" => c07::generate(g, thorough),
         "C08" => grid::generate_c08(g, thorough),
+        "C15" => grid::generate_c15(g, thorough),
         "C11" => c11::generate(g, thorough),
         _ => {}
     }
